@@ -100,7 +100,35 @@ class Gen:
         if not conts or r.random() < 0.12:
             self.declare(indent, conts)
             return
+        if r.random() < 0.06:
+            # std::array: fixed size, read-only uses
+            n = r.randint(1, 5)
+            name = self.nv('ar')
+            self.feat('construct:array')
+            self.b.line(indent, ['std::array<int, %d> %s = {{%s}};' % (n, name, ', '.join(str(r.randint(0, 9)) for _ in range(n)))])
+            conts.append((name, 'array'))
+            return
+        if r.random() < 0.06:
+            movable = [c for c in conts if c[1] != 'array']
+            if movable:
+                src, kind = r.choice(movable)
+                name = self.nv()
+                self.feat('construct:move')
+                self.b.line(indent, ['%s %s(std::move(' % (typ(kind), name), C(src), '));'])
+                conts.remove((src, kind))       # a moved-from container is never probed again
+                conts.append((name, kind))
+                return
         name, kind = r.choice(conts)
+        if kind == 'array':
+            self.feat('read-array')
+            form = r.choice(['size', 'empty', 'sizecmp'])
+            if form == 'size':
+                self.b.line(indent, ['sink += (long)', C(name), '.size();'])
+            elif form == 'empty':
+                self.b.line(indent, ['sink += ', C(name), '.empty() ? 1 : 0;'])
+            else:
+                self.b.line(indent, ['sink += (', C(name), '.size() %s %d) ? 1 : 0;' % (r.choice(['<', '>', '==', '!=']), r.randint(0, 5))])
+            return
         ops = ['push', 'push', 'pop', 'clear', 'read', 'read', 'branch-size', 'branch-input', 'loop-push', 'helper-ro',
                'helper-rw', 'swap', 'assign-copy']
         if kind in ('vector', 'string', 'deque'):
@@ -208,7 +236,7 @@ class Gen:
         r = self.r
         b = self.b
         b.raw('/* generated by contgen */', '#include "trace.h"')
-        for h in ['vector', 'string', 'deque', 'list', 'set']:
+        for h in ['vector', 'string', 'deque', 'list', 'set', 'array', 'utility']:
             b.raw('#include <%s>' % h)
         b.raw('static long sink = 0;')
         b.raw('static int fresh = 0;')
